@@ -52,6 +52,18 @@ def gen_base(rng, tier, index):
                 # base 9: every worker dies in begin() (two of them after 0.6 s, i.e. after the pool started to send the orders)
                 "faults": {"0": ["begin"], "1": ["begin"], "2": ["begin"]} if b9 else None, "side_thread": b9, "ready_first": False,
                 "calls": [] if (b9 or index % 80 < 40) else [{"ordered": True, "n": 1, "chunk": 1, "form": "list"}]}
+    if index in (11, 15) or (tier == "thorough" and index % 40 in (11, 15)):
+        # the pool is left while the result generator of the last call is still alive (kept by the caller, as a traceback keeps
+        # it) after one result: no worker may be running - or be started - once the context is left. Unbounded result
+        # queue and no chunk limit (an unfinished call promises nothing else); base 15: a one-slot-per-worker work queue
+        # and items that keep the workers busy for longer than the pool's internal put timeout
+        slow = index % 40 == 15
+        return {"pool": "factory" if (index // 40) % 2 == 0 else "functor", "workers": 2, "wq": 1.0 if slow else rng.choice([1.0, None]),
+                "rq": None, "quota": None, "end_delay": 0.1, "begin_delay": 0, "ready_first": True, "body_raises": index % 80 < 40,
+                "no_sweep": slow, "limit_factor": 2 if slow else 1,
+                "calls": [{"ordered": False, "n": 3, "chunk": 1, "form": "list"},
+                          {"ordered": True, "n": 6 if slow else 8, "chunk": 1, "form": "list", "abandon_after": 1,
+                           "durations": {"mode": "all", "t": 1.25 if slow else 0.03}}]}
     if index % 16 == 6:
         # replacements right up to the end of the last call and an end() that takes 0.4 s in every worker that processed items:
         # whoever is not joined (a replaced worker, the last retiring one) is still inside end() when the context is left
@@ -63,6 +75,7 @@ def gen_base(rng, tier, index):
     case = c03.gen_base(rng, tier, index)
     case.pop("join_timeout", None)       # the property speaks about pools without join_timeout
     case.pop("no_sweep", None)
+    case.pop("frac_quota", None)         # "at most k chunks" is asserted for whole k only
     case["calls"] = case["calls"][:rng.randint(1, 3)]
     if case["pool"] == "functor" and index % 3 == 0:
         # a plain pool whose workers carry a chunk limit (nobody replaces them): the limit still holds; the calls are kept
